@@ -3,6 +3,7 @@ NEXT MCNext
 CONSTANTS
   Accepts <- MCClassAccepts
   ExtraHandlers <- MCClassExtra
+  WrongRender <- MCWrongRender
   Errors <- MCClassErrors
 INVARIANT OwnStatusAndVary
 INVARIANT OwnHeadersSent
@@ -11,4 +12,5 @@ INVARIANT JsonByDefault
 INVARIANT KindConsistent
 INVARIANT ClientPreferenceHonoured
 INVARIANT NothingAcceptableNoBody
+INVARIANT SpellingIrrelevant
 INVARIANT Emit
